@@ -1197,10 +1197,14 @@ rrul_fill_mly(echs_instant_t *restrict tgt, size_t nti, rrulsp_t rr)
 	/* get m on track */
 	if (UNLIKELY(bui31_has_bits_p(rr->mon))) {
 		bitint_iter_t bm = 0UL;
+		unsigned int g = rr->inter;
+		unsigned int tmpm;
 
-		/* check that some of the months are congruent m modulo inter */
-		while (bui31_next(&bm, rr->mon) &&
-		       ((m + 12U) - (bm - 1U)) % rr->inter);
+		/* stepping by INTER months reaches every gcd(INTER, 12)th month */
+		for (unsigned int r = 12U; r; tmpm = g % r, g = r, r = tmpm);
+		/* check that some of the months are congruent m modulo that */
+		while ((tmpm = bui31_next(&bm, rr->mon), bm) &&
+		       ((m + 12U) - tmpm) % g);
 		if (UNLIKELY(!bm)) {
 			goto fin;
 		}
